@@ -144,12 +144,29 @@ def _ll_corr(c, s=0.25, rho=0.98):
     return t
 
 
+def _ll_faint(c, s=0.005):
+    """one main peak and three much fainter, far-apart peaks of the same width: at some point of the
+    exploration the faint peaks share too few live points to be split, their common ellipsoid is
+    almost empty and Union.trim() drops it inside NautilusBound.compute (a rarely taken path)"""
+    cen = ((0.3, 0.5, 0.0), (0.75, 0.2, -1.4), (0.9, 0.8, -1.4), (0.6, 0.9, -1.4))
+    t = None
+    for (a, b, amp) in cen:
+        u = (c[0] - a) / s
+        v = (c[1] - b) / s
+        q = amp - 0.5 * (u * u + v * v)
+        t = q if t is None else np.maximum(t, q)
+    for ci in c[2:]:
+        e = (ci - 0.5) / 0.2
+        t = t - 0.5 * e * e
+    return t
+
+
 def _ll_const(c):
     return 0.0 * c[0]
 
 
 LIKES = dict(gauss=_ll_gauss, gwide=_ll_gwide, two=_ll_two, ring=_ll_ring, half=_ll_half, plateau=_ll_plateau,
-             wrap=_ll_wrap, const=_ll_const, funnel=_ll_funnel, nuis=_ll_nuis, cross=_ll_cross, corr=_ll_corr)
+             wrap=_ll_wrap, const=_ll_const, funnel=_ll_funnel, nuis=_ll_nuis, cross=_ll_cross, corr=_ll_corr, faint=_ll_faint)
 
 BLOB_KINDS = ('none', 'float', 'int', 'two', 'array', 'struct', 'f32')
 
@@ -439,7 +456,9 @@ class Scenario(dict):
 
     def resolve(self):
         """coverage-directed choice of the seed: for scenarios that `want` a rare event on their default
-        path (`removed`: an empty shell removed at the end of exploration; `removed2`: at least two of them) the
+        path (`removed`: an empty shell removed at the end of exploration; `removed2`: at least two of them;
+        `pending`: at least three transfer candidates still unused when exploration ends; `trim`: a successful
+        Union.trim() while a bound is built) the
         seeds seed, seed+1, ... are tried until the event occurs (deterministic; at most 10 | 24 tries, else the base seed is used and the
         evidence says that the event was not met)"""
         if not self['want']:
@@ -449,16 +468,36 @@ class Scenario(dict):
         try:
             base = self['seed']
             need = 2 if self['want'] == 'removed2' else 1
-            for k in range(10 if need == 1 else 24):
+            trims = [0]
+            if self['want'] == 'trim':
+                # a successful Union.trim() inside NautilusBound.compute on the default path
+                from nautilus.bounds.union import Union as _U
+                _orig = _U.trim
+
+                def _counted(u, *a, **k):
+                    r = _orig(u, *a, **k)
+                    trims[0] += int(bool(r))
+                    return r
+                _U.trim = _counted
+            for k in range({'removed2': 24, 'trim': 16}.get(self['want'], 10)):
                 self['seed'] = base + k
                 s = self.build()
                 mx = 0
+                trims[0] = 0
                 while True:
                     done = s.run(**self.run_args(), n_like_max=s.n_like + 1)
                     mx = max(mx, len(s.bounds))
                     if done or s.explored:
                         break
                 if self['want'] in ('removed', 'removed2') and mx - len(s.bounds) >= need:
+                    self['want'] = None
+                    return self
+                if self['want'] == 'trim' and trims[0] > 0:
+                    self['want'] = None
+                    return self
+                if self['want'] == 'pending' and s.explored and \
+                        int(np.sum(np.asarray(s.shell_t) >= 0)) >= 3:
+                    # transfer candidates still unused when exploration ends
                     self['want'] = None
                     return self
             # the event is rare for this configuration and seed range: the scenario is still a valid
@@ -469,6 +508,8 @@ class Scenario(dict):
             return self
         finally:
             LOG['on'] = on
+            if 'trims' in locals() and '_orig' in locals():
+                _U.trim = _orig
 
     def describe(self):
         d = {k: v for k, v in self.items() if DEFAULTS.get(k, None) != v or k in ('like', 'seed')}
